@@ -79,6 +79,161 @@ func elemComps(t types.Type) []string {
 type modSet struct {
 	comps map[string]bool
 	all   bool
+	// nonFresh: components with at least one write that may land in memory that existed before the call.
+	// A component in comps but not in nonFresh is written only in memory allocated during the call.
+	nonFresh map[string]bool
+}
+
+func (ms *modSet) add(k string, fresh bool) {
+	ms.comps[k] = true
+	if !fresh {
+		if ms.nonFresh == nil {
+			ms.nonFresh = map[string]bool{}
+		}
+		ms.nonFresh[k] = true
+	}
+}
+
+func (ms *modSet) merge(sub *modSet) {
+	for k := range sub.comps {
+		ms.add(k, !sub.nonFresh[k])
+	}
+	if sub.all {
+		ms.all = true
+	}
+}
+
+// isFreshSlice: v is (a view of) memory allocated by the function that defines v: writes through it cannot
+// touch memory that existed when that function was called. Cycles of phi/append/slice are fresh when all
+// their inputs are (greatest fixpoint).
+func isFreshSlice(v ssa.Value, seen map[ssa.Value]bool) bool {
+	if seen[v] {
+		return true
+	}
+	seen[v] = true
+	switch x := v.(type) {
+	case *ssa.MakeSlice:
+		return true
+	case *ssa.Const:
+		return x.IsNil()
+	case *ssa.Slice:
+		if isSlice(x.X.Type()) {
+			return isFreshSlice(x.X, seen)
+		}
+		if _, isPtr := x.X.Type().Underlying().(*types.Pointer); isPtr {
+			return isFreshPtr(x.X, seen)
+		}
+		return false
+	case *ssa.Phi:
+		for _, e := range x.Edges {
+			if !isFreshSlice(e, seen) {
+				return false
+			}
+		}
+		return true
+	case *ssa.ChangeType:
+		return isFreshSlice(x.X, seen)
+	case *ssa.Convert:
+		// []byte(string) / []rune(string) allocate
+		if b, ok := x.X.Type().Underlying().(*types.Basic); ok && b.Info()&types.IsString != 0 && isSlice(x.Type()) {
+			return true
+		}
+		return false
+	case *ssa.Call:
+		if b, ok := x.Call.Value.(*ssa.Builtin); ok && b.Name() == "append" && len(x.Call.Args) > 0 {
+			return isFreshSlice(x.Call.Args[0], seen)
+		}
+		return false
+	case *ssa.UnOp:
+		// load of a slice field of an object allocated here that does not escape before the function
+		// returns: the field holds nil or one of the values this function stores into it
+		if x.Op != token.MUL {
+			return false
+		}
+		fa, ok := x.X.(*ssa.FieldAddr)
+		if !ok {
+			return false
+		}
+		a, ok := fa.X.(*ssa.Alloc)
+		if !ok || a.Referrers() == nil {
+			return false
+		}
+		for _, r := range *a.Referrers() {
+			switch y := r.(type) {
+			case *ssa.FieldAddr:
+				if y.Referrers() == nil {
+					return false
+				}
+				for _, r2 := range *y.Referrers() {
+					switch z := r2.(type) {
+					case *ssa.Store:
+						if z.Addr != ssa.Value(y) {
+							return false // the field's address is stored somewhere
+						}
+						if y.Field == fa.Field && !isFreshSlice(z.Val, seen) {
+							return false
+						}
+					case *ssa.UnOp, *ssa.DebugRef:
+					default:
+						return false
+					}
+				}
+			case *ssa.Return, *ssa.DebugRef:
+			default:
+				return false // the object escapes (call argument, stored, boxed, merged)
+			}
+		}
+		return true
+	}
+	return false
+}
+
+func isFreshPtr(v ssa.Value, seen map[ssa.Value]bool) bool {
+	if seen[v] {
+		return true
+	}
+	seen[v] = true
+	switch x := v.(type) {
+	case *ssa.Alloc:
+		return true
+	case *ssa.FieldAddr:
+		return isFreshPtr(x.X, seen)
+	case *ssa.IndexAddr:
+		if isSlice(x.X.Type()) {
+			return isFreshSlice(x.X, seen)
+		}
+		return isFreshPtr(x.X, seen)
+	case *ssa.Phi:
+		for _, e := range x.Edges {
+			if !isFreshPtr(e, seen) {
+				return false
+			}
+		}
+		return true
+	case *ssa.ChangeType:
+		return isFreshPtr(x.X, seen)
+	}
+	return false
+}
+
+// allRefArgsFresh: every argument through which a callee could reach caller memory is fresh.
+func allRefArgsFresh(c *ssa.CallCommon) bool {
+	for _, a := range c.Args {
+		switch a.Type().Underlying().(type) {
+		case *types.Slice:
+			if !isFreshSlice(a, map[ssa.Value]bool{}) {
+				return false
+			}
+		case *types.Pointer:
+			if !isFreshPtr(a, map[ssa.Value]bool{}) {
+				return false
+			}
+		case *types.Basic:
+		default:
+			return false
+		}
+	}
+	return !c.IsInvoke()
 }
 
 // modsOfInstrs computes components written by a set of blocks (syntactic, transitive through static calls).
@@ -87,11 +242,12 @@ func (e *Env) modsOfBlocks(blocks []*ssa.BasicBlock, ms *modSet, visiting map[*s
 		for _, in := range b.Instrs {
 			switch x := in.(type) {
 			case *ssa.Store:
+				fresh := isFreshPtr(x.Addr, map[ssa.Value]bool{})
 				for _, c := range addrComps(x.Addr) {
-					ms.comps[c] = true
+					ms.add(c, fresh)
 				}
 			case *ssa.MapUpdate:
-				ms.comps["MAP"] = true
+				ms.add("MAP", false)
 			case *ssa.Call:
 				e.modsOfCall(&x.Call, ms, visiting)
 			case *ssa.Defer:
@@ -107,19 +263,20 @@ func (e *Env) modsOfCall(c *ssa.CallCommon, ms *modSet, visiting map[*ssa.Functi
 	if c.IsInvoke() {
 		name := c.Method.FullName()
 		if im, ok := intrinsicMods[name]; ok {
-			im(c, ms)
+			tmp := &modSet{comps: map[string]bool{}}
+			im(c, tmp)
+			for k := range tmp.comps {
+				ms.add(k, false)
+			}
+			if tmp.all {
+				ms.all = true
+			}
 			return
 		}
 		// module-local interface: union over implementations
 		if impls := e.implementations(c); impls != nil {
 			for _, f := range impls {
-				sub := e.modsOfFunc(f, visiting)
-				for k := range sub.comps {
-					ms.comps[k] = true
-				}
-				if sub.all {
-					ms.all = true
-				}
+				ms.merge(e.modsOfFunc(f, visiting))
 			}
 			return
 		}
@@ -130,12 +287,13 @@ func (e *Env) modsOfCall(c *ssa.CallCommon, ms *modSet, visiting map[*ssa.Functi
 		switch b.Name() {
 		case "append", "copy":
 			if len(c.Args) > 0 {
+				fresh := isFreshSlice(c.Args[0], map[ssa.Value]bool{})
 				for _, k := range sliceArgComps(c.Args[0]) {
-					ms.comps[k] = true
+					ms.add(k, fresh)
 				}
 			}
 		case "delete", "clear":
-			ms.comps["MAP"] = true
+			ms.add("MAP", false)
 		}
 		return
 	}
@@ -154,7 +312,15 @@ func (e *Env) modsOfCall(c *ssa.CallCommon, ms *modSet, visiting map[*ssa.Functi
 	}
 	name := callee.String()
 	if im, ok := intrinsicMods[name]; ok {
-		im(c, ms)
+		tmp := &modSet{comps: map[string]bool{}}
+		im(c, tmp)
+		fresh := allRefArgsFresh(c)
+		for k := range tmp.comps {
+			ms.add(k, fresh)
+		}
+		if tmp.all {
+			ms.all = true
+		}
 		return
 	}
 	if len(callee.Blocks) == 0 || !e.inModule(callee) {
@@ -167,18 +333,107 @@ func (e *Env) modsOfCall(c *ssa.CallCommon, ms *modSet, visiting map[*ssa.Functi
 				ms.all = true // a boxed value of unknown dynamic type
 			}
 			for _, k := range reachableComps(t, 2) {
-				ms.comps[k] = true
+				ms.add(k, false)
 			}
 		}
 		return
 	}
-	sub := e.modsOfFunc(callee, visiting)
-	for k := range sub.comps {
-		ms.comps[k] = true
+	ms.merge(e.modsOfFunc(callee, visiting))
+	// a callee under contract is replaced by its assigns clause at the call site: the components that clause
+	// names belong to the mod-set too (e.g. every field of a freshly allocated result, `assigns result0.*`)
+	if con := e.contracts[funcName(callee)]; con != nil && con.HasAssigns {
+		// (freshness is decided by the callee's body, merged above: a component the clause names but the body
+		// never writes to pre-existing memory stays fresh-only)
+		for _, k := range staticAssignComps(con, callee) {
+			ms.add(k, true)
+		}
 	}
-	if sub.all {
-		ms.all = true
+}
+
+// staticAssignComps: the memory components named by a contract's assigns items, from types alone.
+func staticAssignComps(con *Contract, callee *ssa.Function) []string {
+	env := map[string]types.Type{}
+	for _, p := range callee.Params {
+		env[p.Name()] = p.Type()
 	}
+	res := callee.Signature.Results()
+	for i := 0; i < res.Len(); i++ {
+		env[fmt.Sprintf("result%d", i)] = res.At(i).Type()
+		if res.At(i).Name() != "" {
+			env[res.At(i).Name()] = res.At(i).Type()
+		}
+	}
+	if res.Len() == 1 {
+		env["result"] = res.At(0).Type()
+	}
+	var typeOf func(x *SExpr) types.Type
+	typeOf = func(x *SExpr) types.Type {
+		switch x.Op {
+		case "id":
+			return env[x.Name]
+		case "old":
+			return typeOf(x.Args[0])
+		case "sel":
+			t := typeOf(x.Args[0])
+			if t == nil {
+				return nil
+			}
+			if pt, ok := t.Underlying().(*types.Pointer); ok {
+				t = pt.Elem()
+			}
+			if st, ok := t.Underlying().(*types.Struct); ok {
+				if i := fieldIndex(st, x.Name); i >= 0 {
+					return st.Field(i).Type()
+				}
+			}
+		case "idx":
+			t := typeOf(x.Args[0])
+			if t != nil && (isSlice(t) || isArrayType(t)) {
+				return sliceElem(t)
+			}
+		}
+		return nil
+	}
+	var out []string
+	for _, cl := range con.Assigns {
+		x := cl.E
+		if x == nil {
+			continue
+		}
+		switch x.Op {
+		case "elems", "slice":
+			if t := typeOf(x.Args[0]); t != nil && isSlice(t) {
+				out = append(out, elemComps(t)...)
+			}
+		case "fields":
+			if t := typeOf(x.Args[0]); t != nil {
+				if pt, ok := t.Underlying().(*types.Pointer); ok {
+					out = append(out, compsOf(&LV{Root: rootForPointee(pt.Elem()), T: pt.Elem()})...)
+				}
+			}
+		case "sel":
+			if t := typeOf(x.Args[0]); t != nil {
+				if pt, ok := t.Underlying().(*types.Pointer); ok {
+					if st, ok := pt.Elem().Underlying().(*types.Struct); ok {
+						if i := fieldIndex(st, x.Name); i >= 0 {
+							lv := (&LV{Root: rootForPointee(pt.Elem()), T: pt.Elem()}).extend(Step{Field: x.Name}, st.Field(i).Type())
+							out = append(out, compsOf(lv)...)
+						}
+					}
+				}
+			}
+		case "call":
+			if x.Name == "file" {
+				out = append(out, "FILE")
+			}
+		}
+	}
+	return out
+}
+
+func isArrayType(t types.Type) bool {
+	_, ok := t.Underlying().(*types.Array)
+	return ok
 }
 
 func (e *Env) modsOfFunc(f *ssa.Function, visiting map[*ssa.Function]bool) *modSet {
@@ -489,6 +744,13 @@ func (fr *frame) instr(in ssa.Instruction) {
 	switch x := in.(type) {
 	case *ssa.DebugRef:
 		if x.IsAddr {
+			// address-taken local: remember its cell so that contracts can name the variable
+			if x.Object() != nil {
+				if fr.dbgAddr == nil {
+					fr.dbgAddr = map[types.Object]ssa.Value{}
+				}
+				fr.dbgAddr[x.Object()] = x.X
+			}
 			return
 		}
 		if id, ok := x.Expr.(interface{ Pos() token.Pos }); ok && x.Object() != nil {
@@ -522,6 +784,10 @@ func (fr *frame) instr(in ssa.Instruction) {
 			}
 		} else {
 			pl = ft.c.Fresh("box", SInt)
+			if ft.boxes == nil {
+				ft.boxes = map[string]*Val{}
+			}
+			ft.boxes[pl.T+"|"+typeKey(x.X.Type())] = src
 		}
 		fr.vals[x] = &Val{T: x.Type(), L: []Term{tag, pl}, Tup: nil, FnName: "", LV: nil, Rg: nil, Lit: nil}
 		fr.vals[x].boxed = src
@@ -908,6 +1174,8 @@ func (fr *frame) typeAssert(x *ssa.TypeAssert) {
 			out = &Val{T: x.AssertedType, L: []Term{src.L[1]}}
 		case src.boxed != nil && types.Identical(src.boxed.T, x.AssertedType):
 			out = src.boxed
+		case len(leavesOf(x.AssertedType)) > 0:
+			out = ft.unbox(src.L[1], x.AssertedType, x.Name())
 		default:
 			out = ft.freshVal(x.Name(), x.AssertedType)
 		}
